@@ -303,6 +303,43 @@ func c06Prop(c *Ctx) {
 			run(c06Input{Src: src, Seed: 1, Mode: "dup-managed", Pick: k})
 		}
 	}
+	c06KnownShared(c)
+}
+
+// hand-built trees of the two recorded findings: a shared node at a pair of positions the duplicate
+// check never looks at
+func c06KnownShared(c *Ctx) {
+	rejected := func(print func() error) (bool, string) {
+		var err error
+		pm := safely(func() { err = print() })
+		if strings.Contains(pm, "duplicate node") {
+			return true, ""
+		}
+		return false, fmt.Sprintf("no 'duplicate node' panic (error %v, panic %q)", err, pm)
+	}
+	// (1) one FuncType as the Type of two FuncDecls
+	sig := &dst.FuncType{Func: true}
+	f1 := &dst.File{Name: dst.NewIdent("p"), Decls: []dst.Decl{
+		&dst.FuncDecl{Name: dst.NewIdent("a"), Type: sig, Body: &dst.BlockStmt{}},
+		&dst.FuncDecl{Name: dst.NewIdent("b"), Type: sig, Body: &dst.BlockStmt{}},
+	}}
+	c.Res.Evaluations++
+	if ok, what := rejected(func() error { var b bytes.Buffer; return decorator.NewRestorer().Fprint(&b, f1) }); !ok {
+		c.Res.fail("shared-funcdecl-type-not-rejected", "one *dst.FuncType used as the Type of two FuncDecls is printed: "+what, map[string]string{"tree": "sig := &dst.FuncType{Func: true}; File{Decls: FuncDecl{Name: a, Type: sig, Body: {}}, FuncDecl{Name: b, Type: sig, Body: {}}}"})
+	}
+	// (2) one ImportSpec twice in the specs of an import declaration that import management prunes
+	is := &dst.ImportSpec{Path: &dst.BasicLit{Kind: token.STRING, Value: `"fmt"`}}
+	f2 := &dst.File{Name: dst.NewIdent("p"), Decls: []dst.Decl{
+		&dst.GenDecl{Tok: token.IMPORT, Lparen: true, Rparen: true, Specs: []dst.Spec{is, is}},
+		&dst.GenDecl{Tok: token.VAR, Specs: []dst.Spec{&dst.ValueSpec{Names: []*dst.Ident{dst.NewIdent("v")}, Type: dst.NewIdent("int")}}},
+	}}
+	c.Res.Evaluations++
+	if ok, what := rejected(func() error {
+		var b bytes.Buffer
+		return decorator.NewRestorerWithImports("example.com/p", guessNew()).Fprint(&b, f2)
+	}); !ok {
+		c.Res.fail("managed-pruned-duplicate-not-rejected", "one *dst.ImportSpec twice in an import declaration whose (unused) specs import management removes is printed: "+what, map[string]string{"tree": "is := &dst.ImportSpec{Path: \"fmt\"}; File{Decls: GenDecl{IMPORT, Specs: {is, is}}, var v int}; NewRestorerWithImports(path, guess.New()).Fprint"})
+	}
 }
 
 // correspondence: model clone vs real Clone
